@@ -174,6 +174,22 @@ def run(ctx, impl_only=False):
                                     ctx.violate(dict(c2, attempt=attempt), 'after a refused base the same Delta no longer maps t1 to t2')
                             except Exception:
                                 pass
+                    # the subtraction side: t2 corrupted at the location of the new value must be refused by `base - delta` as well
+                    if kind == 'fresh' and dom:
+                        try:
+                            np_ = rec.get('new_path', p) if isinstance(rec, dict) else p
+                            base2 = set_at(t2, path_elems(np_), SENTINEL)
+                        except (KeyError, IndexError, TypeError):
+                            base2 = None
+                        if base2 is not None and not strict_eq(base2, t2):
+                            ctx.evaluations += 1
+                            try:
+                                copy.deepcopy(base2) - mk(raise_errors=True)
+                                ctx.violate(dict(c2, side='subtraction'), 'raise_errors=True: t2 corrupted at %s was accepted by base - delta' % np_)
+                            except DeltaError:
+                                ctx.count('corruption_raised:subtraction')
+                            except Exception as e:
+                                ctx.count('corruption_raised_other:' + type(e).__name__)
                     out, _ = DL.apply_outcome(lambda: copy.deepcopy(base) + mk())
                     if not (out.startswith('RAISED') or out.endswith('errs=1')):
                         ctx.violate(c2, 'raise_errors=False: the mismatch at %s was accepted silently' % p)
